@@ -68,13 +68,37 @@ func pkgDecisions(dir string) []string {
 			if fd.Recv != nil && len(fd.Recv.List) > 0 {
 				fn = nodeStr(fset, fd.Recv.List[0].Type) + "." + fn
 			}
+			seq := 0
+			depth := 0
+			// decisions keep their order and nesting (a `select` moved into an error branch is a different case
+			// analysis); literals are kept as a multiset (statements that merely move do not matter)
 			add := func(format string, a ...interface{}) {
-				out = append(out, fn+": "+clip(fmt.Sprintf(format, a...)))
+				text := fmt.Sprintf(format, a...)
+				if strings.HasPrefix(text, "lit ") || strings.HasPrefix(text, "returns ") {
+					out = append(out, fn+": "+clip(text))
+					return
+				}
+				seq++
+				out = append(out, fmt.Sprintf("%s: #%03d d%d %s", fn, seq, depth, clip(text)))
 			}
 			returns := 0
 			var walk func(n ast.Node, inMsg bool)
 			walk = func(n ast.Node, inMsg bool) {
+				var stack []ast.Node
 				ast.Inspect(n, func(x ast.Node) bool {
+					if x == nil {
+						if len(stack) > 0 {
+							if _, ok := stack[len(stack)-1].(*ast.BlockStmt); ok {
+								depth--
+							}
+							stack = stack[:len(stack)-1]
+						}
+						return true
+					}
+					stack = append(stack, x)
+					if _, ok := x.(*ast.BlockStmt); ok {
+						depth++
+					}
 					switch s := x.(type) {
 					case *ast.IfStmt:
 						add("if %s", nodeStr(fset, s.Cond))
@@ -137,6 +161,7 @@ func pkgDecisions(dir string) []string {
 								walk(a, true)
 							}
 							walk(s.Fun, true)
+							stack = stack[:len(stack)-1]
 							return false
 						}
 					case *ast.BasicLit:
